@@ -40,7 +40,8 @@ RULE = ("20 string sinks (`sinks` in evidence) x 373 variants (shape kind / plac
         "gets 192 (quick) / 4800 (thorough) strings spread over 32 shards, at least 4 / 30 per variant. Hypothesis "
         "draws non-empty strings over the XML Char production, token-built and biased to & < > \" ' , attribute "
         "breakers, element/comment/CDATA/PI fragments, entity look-alikes, %/{} format directives, CR/LF/TAB, "
-        "blank edges; shards use 1, 2 or 3 tokens at least; file-name sinks get real files with the generated "
+        "blank edges; the empty string is run once per variant of the 11 sinks where it is a value like any other; "
+        "shards use 1, 2 or 3 tokens at least; file-name sinks get real files with the generated "
         "base name (no '/'). Every case runs on a fresh deck: call, readers, save, plain-lxml parse of every XML "
         "member, re-open, readers, skeleton comparison with the benign twin ('x'). Non-trivial: the string holds "
         "at least one of & < > \" ' or CR; distinct by (sink, variant, string); a string repeated by Hypothesis "
@@ -531,7 +532,7 @@ def _cat_label(env, v, s):
 
 
 def _format_codes(p, under):
-    return [e.text for e in xp(_chart0(p)._chartSpace, "//c:ser/%s//c:formatCode" % under)]
+    return [e.text or "" for e in xp(_chart0(p)._chartSpace, "//c:ser/%s//c:formatCode" % under)]
 
 
 @sink("chart_data.number_format", variants=[[t, m, w] for t in CAT_TYPES[::2] + XY_TYPES[::2]
@@ -765,6 +766,13 @@ def _neutralise(s, keep=None):
     return s
 
 
+# sinks for which the empty string is a value like any other (for names of files, slide names and hyperlink
+# addresses the empty string means "none" and is outside the domain)
+EMPTY_OK = {"shape.name", "oleObj.progId", "font.name", "core_properties", "series.name", "category.label",
+            "tick_labels.number_format", "data_labels.number_format", "chart_data.number_format",
+            "categories.number_format", "add_movie.mime_type"}
+
+
 def check_case(case, env=None):
     """case = [sink name, variant, s]"""
     name, variant, s = case
@@ -773,7 +781,7 @@ def check_case(case, env=None):
     if own:
         env = Env()
     try:
-        if not T.in_domain(s, fname=sk.fname, max_len=sk.max_len):
+        if not (s == "" and name in EMPTY_OK) and not T.in_domain(s, fname=sk.fname, max_len=sk.max_len):
             return  # shrinker / hand-edited replay outside the domain
         bad = _evaluate(sk, variant, s, env)
         if bad is None:
@@ -859,10 +867,22 @@ def _assignment(sk, shard, tier):
 def jobs(tier):
     js = [{"kind": "sinks", "shard": i} for i in range(NSHARD)]
     js.append({"kind": "basenames"})
+    js += [{"kind": "empty", "shard": i} for i in range(8)]
     return js
 
 
 def run_job(job, seed, tier, rec, known):
+    if job["kind"] == "empty":
+        # the empty string on every sink where it is a value like any other
+        env = Env()
+        try:
+            cases = [[n, v, ""] for n in sorted(EMPTY_OK) for v in SINKS[n].variants][job["shard"]::8]
+            f = run_plain(lambda c: check_case(c, env), cases, rec=rec, known=known)
+            rec.note_enum(len(cases), len(cases), sample=cases[0])
+            rec.cls("empty-string-cases")
+        finally:
+            env.close()
+        return f
     if job["kind"] == "basenames":
         from pptx.enum.shapes import MSO_SHAPE
         from pptx.spec import autoshape_types
